@@ -36,7 +36,15 @@ def run(F, R):
     av = sm.bool_edges(S, lambda n, t: "AppSetExt::all_valid" in fmt_t(t))
     true_e = [(a, b) for (a, b, tr) in av if tr]
     false_e = [(a, b) for (a, b, tr) in av if not tr]
-    if R.floor("C05-R1", "tests of AppSetExt::all_valid", len(true_e), 1):
+    if not true_e:
+        # the running task does not test all_valid(): is the test made somewhere else and its answer carried in?
+        in_task = set(cx.bv.id for cx in S.ctxs)
+        elsewhere = sorted(b["id"] for b in c.bodies if b["id"] not in in_task and "::tests" not in b["id"] and "::test_" not in b["id"]
+                           and any(t.get("name") == "all_valid" and (t.get("trait") or "").endswith("AppSetExt") for _, t in BV.of(b).calls()))
+        if elsewhere:
+            R.violation("C05-R1", "gate", "the validity of the app set is decided outside the running task (%s) and not when the task starts: an app set that is invalid by the time the "
+                        "machine runs is not caught by the gate" % elsewhere[0].split("::")[-3:], None)
+    if (true_e or not elsewhere) and R.floor("C05-R1", "tests of AppSetExt::all_valid", len(true_e), 1):
         r_ = reach(S, [entry], cut_edges=true_e)
         evs = [x for x in r_ if S.ev[x] and not (S.ev[x][0] == "env" and S.ev[x][1] == "AppSet" and S.ev[x][2] == "get_apps")]
         R.check("C05-R1", "gate", not evs, "no effect before the validity gate (%d nodes before it)" % len(r_),
@@ -250,6 +258,8 @@ def _errors_gate(R, sm, Sc, needed_sites):
                                 if lib.norm(t2["callee"]).endswith("::push") and "Vec" in t2["callee"]:
                                     found.append((bv, y, cb, b2, t2))
                 x = _unref(x[2][0]) if x[2] else ("undef",)
+    if not found and _errors_gate_loop(R, sm, Sc, needed_sites):
+        return
     if not R.floor("C05-R5", "error-collecting pushes in result-building closures", len(found), 1):
         return
     for (bv, clo, cb, pb, pt) in found:
@@ -297,6 +307,65 @@ def _errors_gate(R, sm, Sc, needed_sites):
         bad = (set(needed_sites) | set(sm.env(Sc, "Policy", "reboot_needed"))) & r_
         R.check("C05-R5", "errors-gate", not bad, "reboot_needed and Needed(_) lie behind `errors.is_empty() == true` on the vector that collects every Failed payload",
                 "reboot_needed / Needed(_) reachable without the collected installer errors being empty: %s" % [Sc.nodes[x].loc() for x in sorted(bad)])
+
+
+def _errors_gate_loop(R, sm, Sc, needed_sites):
+    """The same rule when the errors are collected by a loop over the installer results in the flow itself (not by the
+    closure of a `map`): the loop's `Failed` arm pushes the payload, no iteration gets round that match, and the reboot
+    question lies behind `is_empty() == true` of that vector.  Returns False when no such loop exists."""
+    c = sm.c
+    AIR = "installer::AppInstallResult"
+    done = False
+    for bid in sorted(set(cx.bv.id for cx in Sc.ctxs)):
+        bv = sm.w.bv(bid)
+        for pb, pt in bv.calls():
+            if not (lib.norm(pt.get("callee") or "").endswith("::push") and "Vec" in (pt.get("callee") or "") and len(pt["args"]) == 2):
+                continue
+            val = _unref(bv.trace_op(pt["args"][1]))
+            if not (val[0] == "field" and val[1][0] == "downcast" and val[1][2] == "Failed"):
+                continue
+            vec = _unref(bv.trace_op(pt["args"][0]))
+            # the match whose Failed arm holds the push
+            sws = []
+            for b in sorted(bv.reach0):
+                si = guards.switch_info(bv, b)
+                if si and si.kind == "discr" and si.ty.get("d") == AIR:
+                    for tgt in bv.succ[b]:
+                        # the match that *decides* the push: reached from its Failed arm and from no other arm
+                        if "Failed" in si.edge_names(bv, tgt) and pb in bv.reach_from([tgt], avoid=[b]) and pb not in bv.reach_from([x for x in bv.succ[b] if x != tgt], avoid=[b]):
+                            sws.append((b, tgt, si))
+            if len(sws) != 1:
+                continue
+            b, tgt, si = sws[0]
+            fwd = bv.reach_from([b])
+            loop = set(x for x in fwd if b in bv.reach_from([x])) if b in bv.reach_from(bv.succ[b]) else set()
+            nexts = [x for x in loop if bv.blocks[x]["t"]["k"] == "call" and lib.callee_is(bv.blocks[x]["t"], "std::iter::Iterator::next")
+                     and "AppInstallResult" in c.types[bv.blocks[x]["t"]["destt"]]["s"]]
+            if not loop or len(nexts) != 1:
+                continue
+            done = True
+            nb = nexts[0]
+            rets = [r for r in bv.reach_from([tgt], avoid=[pb]) if r == nb or bv.blocks[r]["t"]["k"] == "return"]
+            R.check("C05-R5", "failed-arm-always-collected", not rets and len(si.edge_names(bv, tgt)) == 1, "every AppInstallResult::Failed result met by the loop is pushed into the error vector",
+                    "a Failed install result can leave the iteration without being recorded as an installation error", lib.loc(bv, b))
+            bypass = nb in bv.reach_from(bv.succ[nb], avoid=[b])
+            R.check("C05-R5", "every-result-inspected", not bypass, "no iteration over the installer results gets round the match that records failures",
+                    "an installer result can be consumed by the loop without being tested for failure (a failed install of that app is not an installation error, and the reboot question is asked)", lib.loc(bv, nb))
+
+            def is_gate(n, t, vec=vec):
+                t = _unref(t)
+                return t[0] == "call" and lib.norm(t[1]).endswith("::is_empty") and t[2] and _unref(t[2][0]) == vec
+
+            es = sm.bool_edges(Sc, is_gate)
+            empty_true = [(a, b_) for (a, b_, tr) in es if tr]
+            if not empty_true:
+                R.inconclusive("C05-R5", "errors-gate", "the error vector filled by the loop is not tested through is_empty()")
+                continue
+            r_ = reach(Sc, [Sc.root.entry], cut_edges=empty_true)
+            bad = (set(needed_sites) | set(sm.env(Sc, "Policy", "reboot_needed"))) & r_
+            R.check("C05-R5", "errors-gate", not bad, "reboot_needed and Needed(_) lie behind `errors.is_empty() == true` on the vector that collects every Failed payload",
+                    "reboot_needed / Needed(_) reachable without the collected installer errors being empty: %s" % [Sc.nodes[x].loc() for x in sorted(bad)])
+    return done
 
 
 def _builder_field_flow(R, c, W=None):
@@ -390,7 +459,63 @@ def _builder_field_flow(R, c, W=None):
         got_u = [[it.get("key"), it.get("skip_if"), it.get("field")] for it in (us or {}).get("items", [])]
         R.check("C05-R3", "updatecheck-wire-names", got_u == [["updatedisabled", "false", "disabled"], ["sameversionupdate", "false", "offer_update_if_same_version"]], str(got_u),
                 "the updatecheck object serialises as %s: the policy's disable-updates / same-version parameters do not reach the server under the attributes it reads" % got_u)
-        R.check("C05-R3", "updatecheck-flags", found == exp, "updatedisabled/sameversionupdate <- params: %s" % found, "update-check flags do not come from params: %s" % found)
+        if found is None:
+            _updatecheck_via_callee(R, c, W, auc)
+        else:
+            R.check("C05-R3", "updatecheck-flags", found == exp, "updatedisabled/sameversionupdate <- params: %s" % found, "update-check flags do not come from params: %s" % found)
+
+
+def _updatecheck_via_callee(R, c, W, auc):
+    """add_update_check hands the parameters to a function that builds the UpdateCheck (a `From` impl, a constructor):
+    every alternative that function can return carries, in each flag, either the matching parameter or a constant chosen
+    under a test of that same parameter."""
+    from .. import optnorm
+    prod = [(bi, t) for bi, t in auc.calls() if "protocol::request::UpdateCheck" == c.types[t["destt"]].get("d") and (t.get("resolved_id") or t.get("callee_id")) in W.by_id]
+    if len(prod) != 1:
+        R.inconclusive("C05-R3", "updatecheck-flags", "the update check of add_update_check is neither built in place nor returned by one local function")
+        return
+    bi, t = prod[0]
+    arg = [lib.apath(strip(auc.trace_op(a))) for a in t["args"]]
+    cb = W.bv(t.get("resolved_id") or t.get("callee_id"))
+    if arg != ["param1.params"]:
+        R.inconclusive("C05-R3", "updatecheck-flags", "the function that builds the update check is handed %s, not the builder's parameters" % arg)
+        return
+    def _alts(bv_, t_, depth=0):
+        t_ = strip(t_)
+        if t_[0] == "phi":
+            return [y for a_ in t_[1] for y in _alts(bv_, a_, depth)]
+        if t_[0] == "call" and depth < 4 and not t_[2]:
+            # a parameterless local constructor (`UpdateCheck::disabled()`, `Default::default()`): what it returns
+            blk = bv_.blocks[t_[3]]["t"] if isinstance(t_[3], int) else {}
+            cid_ = blk.get("resolved_id") or blk.get("callee_id")
+            if cid_ in W.by_id:
+                cv_ = W.bv(cid_)
+                return _alts(cv_, cv_.trace_local(0), depth + 1)
+        return [t_]
+
+    alts = _alts(cb, cb.trace_local(0))
+    tested = set()
+    for b in sorted(cb.reach0):
+        si = guards.switch_info(cb, b)
+        if si and len(cb.succ[b]) > 1:
+            tested.add(lib.apath(strip(si.term)))
+    bad = []
+    for a in alts:
+        a = strip(a)
+        if not (a[0] == "agg" and (a[2] or "").endswith("UpdateCheck::UpdateCheck") and len(a) > 4):
+            R.inconclusive("C05-R3", "updatecheck-flags", "an alternative returned by %s is not an UpdateCheck built in place: %s" % (cb.name, fmt_t(a)[:80]))
+            return
+        for fld, par in (("disabled", "disable_updates"), ("offer_update_if_same_version", "offer_update_if_same_version")):
+            v = strip(a[3][a[4].index(fld)])
+            src = lib.apath(v)
+            if src == "param1." + par:
+                continue
+            is_const = v[0] == "const" or (v[0] == "field" and strip(v[1])[0] == "call" and lib.norm(strip(v[1])[1]).endswith("Default::default"))
+            if is_const and ("param1." + par) in tested:
+                continue
+            bad.append("%s = %s" % (fld, fmt_t(v)[:40]))
+    R.check("C05-R3", "updatecheck-flags", not bad, "every UpdateCheck returned by %s takes both flags from the parameters" % cb.name,
+            "%s can return an update check whose flag does not follow the parameters (%s): a policy-set flag is dropped in some combination" % (cb.name, sorted(set(bad))), lib.loc(auc, bi))
 
 
 def _ctxkey(ctx):
